@@ -170,10 +170,15 @@ def tlc_classpath_ok():
 
 def tlc_run(workdir, module, cfg, workers=1, env=None, timeout=900, xmx="3g", extra=(), metadir=None, jextra=()):
     metadir = metadir or os.path.join(workdir, "meta-%s-%d-%d" % (os.path.basename(cfg), os.getpid(), int(time.time() * 1e6) % 10 ** 9))
-    cmd = java_cmd(xmx, jextra) + ["-workers", str(workers), "-metadir", metadir, "-config", cfg] + list(extra) + [module]
+    # TLC / SANY unpack their standard modules into java.io.tmpdir on every start: keep that inside the work directory
+    # (removed with it) instead of littering /tmp
+    jtmp = metadir + "-jtmp"
+    os.makedirs(jtmp, exist_ok=True)
+    cmd = java_cmd(xmx, tuple(jextra) + ("-Djava.io.tmpdir=" + jtmp,)) + ["-workers", str(workers), "-metadir", metadir, "-config", cfg] + list(extra) + [module]
     t0 = time.time()
     rc, so, se = sh(cmd, timeout=timeout, env=env, cwd=workdir)
     shutil.rmtree(metadir, ignore_errors=True)
+    shutil.rmtree(jtmp, ignore_errors=True)
     m = _TLC_STATES.search(so)
     return {"rc": rc, "out": so, "err": se, "generated": int(m.group(1)) if m else 0,
             "distinct": int(m.group(2)) if m else 0, "wall": time.time() - t0}
